@@ -347,3 +347,359 @@ Theorem negative_start_stops_at_zero :
             exists p', parse_patch (r_rej r) FUnknown (-1) = Ok p' /\ map body (hunks p') = [body ex_g2].
 Proof. exact RejectFileExamples.negative_start_stops_at_zero. Qed.
 Print Assumptions negative_start_stops_at_zero.
+
+(* ===== merged from Properties_RejectWf.v ===== *)
+From PatchV Require Import Base Lines Hunk Locator Formatter Options Applier LineParser Parser
+     Spec_Locate Spec_Apply Proofs_Apply Proofs_Unified Proofs_Rejects Proofs_CtxLines Proofs_CtxMerge Proofs_Context
+     Proofs_RejectFile Proofs_RejectWf.
+
+Local Open Scope Z_scope.
+
+(* the arithmetic core: whatever the verdicts, a shift that starts inside the room stays inside it *)
+Theorem rejects_wf_unified : forall hs vs d lo,
+  Forall wf_hunk hs -> room_below lo hs -> - lo <= d -> Forall wf_hunk (expected_rejects vs hs d).
+Proof. exact Proofs_RejectWf.rejects_wf_unified. Qed.
+Print Assumptions rejects_wf_unified.
+
+Theorem rejects_wf_context : forall hs vs d lo hi,
+  Forall wf_hunk_c hs -> room_below lo hs -> room_above hi hs -> - lo <= d <= hi ->
+  Forall wf_hunk_c (expected_rejects vs hs d).
+Proof. exact Proofs_RejectWf.rejects_wf_context. Qed.
+Print Assumptions rejects_wf_context.
+
+(* since the repair e07e11a (a moved start stops at 0): a hunk fit for the unified form stays so under ANY shift *)
+Theorem wf_hunk_shift_any : forall h d, wf_hunk h -> wf_hunk (shift_hunk h d).
+Proof. exact Proofs_RejectWf.wf_hunk_shift_any. Qed.
+Print Assumptions wf_hunk_shift_any.
+
+Theorem rejects_always_wf : forall hs vs d, Forall wf_hunk hs -> Forall wf_hunk (expected_rejects vs hs d).
+Proof. exact Proofs_RejectWf.rejects_always_wf. Qed.
+Print Assumptions rejects_always_wf.
+
+Theorem rejects_always_wf_starts : forall hs vs d,
+  Forall (fun h => 0 <= rstart (oldr h) <= MAXZ /\ 0 <= rstart (newr h) <= MAXZ) (expected_rejects vs hs d).
+Proof. exact Proofs_RejectWf.rejects_always_wf_starts. Qed.
+Print Assumptions rejects_always_wf_starts.
+
+(* context form: only the upper side is left *)
+Theorem wf_hunk_c_shift_upper : forall h d,
+  wf_hunk_c h ->
+  rstart (oldr h) + d + rcount (oldr h) <= MAXZ -> rstart (newr h) + d + rcount (newr h) <= MAXZ ->
+  wf_hunk_c (shift_hunk h d).
+Proof. exact Proofs_RejectWf.wf_hunk_c_shift_upper. Qed.
+Print Assumptions wf_hunk_c_shift_upper.
+
+Theorem rejects_wf_context_upper : forall hs vs d hi,
+  Forall wf_hunk_c hs -> room_above hi hs -> d <= hi -> Forall wf_hunk_c (expected_rejects vs hs d).
+Proof. exact Proofs_RejectWf.rejects_wf_context_upper. Qed.
+Print Assumptions rejects_wf_context_upper.
+
+(* when the shift is exact: move_hunk h d = h with both starts + d; moved_rejects = expected_rejects with move_hunk *)
+Theorem shift_start_exact_iff : forall s d, shift_start s d = s + d <-> 0 <= s + d <= MAXZ.
+Proof. exact Proofs_RejectWf.shift_start_exact_iff. Qed.
+Print Assumptions shift_start_exact_iff.
+
+Theorem shift_hunk_exact_iff : forall h d,
+  shift_hunk h d = move_hunk h d <->
+  (0 <= rstart (oldr h) + d <= MAXZ) /\ (0 <= rstart (newr h) + d <= MAXZ).
+Proof. exact Proofs_RejectWf.shift_hunk_exact_iff. Qed.
+Print Assumptions shift_hunk_exact_iff.
+
+Theorem rejects_exact : forall hs vs d lo hi,
+  Forall counts_nonneg hs -> room_below lo hs -> room_above hi hs -> - lo <= d <= hi ->
+  expected_rejects vs hs d = moved_rejects vs hs d.
+Proof. exact Proofs_RejectWf.rejects_exact. Qed.
+Print Assumptions rejects_exact.
+
+(* ... and the lower room is exactly what that takes, the verdicts being free *)
+Theorem exact_shift_room : forall hs d,
+  (forall vs, length vs = length hs -> expected_rejects vs hs d = moved_rejects vs hs d) -> room_below (- d) hs.
+Proof. exact Proofs_RejectWf.exact_shift_room. Qed.
+Print Assumptions exact_shift_room.
+
+(* (1) from the shape of a diff: increasing, disjoint old ranges give the old half of the room ... *)
+Theorem old_room_of_disjoint : forall hs lo,
+  Forall counts_nonneg hs -> increasing_disjoint hs -> head_old_from lo hs -> old_room lo hs.
+Proof. exact Proofs_RejectWf.old_room_of_disjoint. Qed.
+Print Assumptions old_room_of_disjoint.
+
+Theorem diff_ordered_disjoint : forall hs, diff_ordered hs -> increasing_disjoint hs.
+Proof. exact Proofs_RejectWf.diff_ordered_disjoint. Qed.
+Print Assumptions diff_ordered_disjoint.
+
+Theorem old_room_of_touching : forall hs lo,
+  Forall counts_nonneg hs -> touching_ordered hs -> head_pos_from lo hs -> old_room lo hs.
+Proof. exact Proofs_RejectWf.old_room_of_touching. Qed.
+Print Assumptions old_room_of_touching.
+
+(* ... the new half is a condition of its own; it holds when no hunk shrinks the file *)
+Theorem new_room_no_shrink : forall hs,
+  Forall (fun h => rcount (oldr h) <= rcount (newr h) /\ 0 <= rstart (newr h)) hs -> new_room 0 hs.
+Proof. exact Proofs_RejectWf.new_room_no_shrink. Qed.
+Print Assumptions new_room_no_shrink.
+
+Theorem diff_style_room : forall hs, Forall wf_hunk hs -> diff_style hs -> room_below 0 hs.
+Proof. exact Proofs_RejectWf.diff_style_room. Qed.
+Print Assumptions diff_style_room.
+
+(* the upper bound for the context form: new ranges increasing and disjoint, every range ending at or below (2^63-1)/2 *)
+Theorem diff_style_c_rooms : forall hs, Forall wf_hunk_c hs -> diff_style_c hs -> rooms hs.
+Proof. exact Proofs_RejectWf.diff_style_c_rooms. Qed.
+Print Assumptions diff_style_c_rooms.
+
+(* a hunk fit for the unified form stays so when reversed *)
+Theorem wf_hunk_reverse : forall h, wf_hunk h -> wf_hunk (reverse_hunk h).
+Proof. exact Proofs_RejectWf.wf_hunk_reverse. Qed.
+Print Assumptions wf_hunk_reverse.
+
+Theorem wf_hunk_two_both : forall hs,
+  Forall wf_hunk_two hs -> Forall wf_hunk_c hs /\ Forall wf_hunk_c (map reverse_hunk hs).
+Proof. exact Proofs_RejectWf.wf_hunk_two_both. Qed.
+Print Assumptions wf_hunk_two_both.
+
+(* what the run rejected, and what it leaves in the record, is well formed *)
+Theorem rejected_wf_unified : forall o f p r rj,
+  rejected_by o f p r rj ->
+  Forall wf_hunk (hunks p) -> diff_style (hunks p) -> diff_style (map reverse_hunk (hunks p)) ->
+  Forall wf_hunk rj /\ Forall wf_hunk (hunks (r_patch r)).
+Proof. exact Proofs_RejectWf.rejected_wf_unified. Qed.
+Print Assumptions rejected_wf_unified.
+
+Theorem rejected_wf_context : forall o f p r rj,
+  rejected_by o f p r rj ->
+  Forall wf_hunk_c (hunks p) -> Forall wf_hunk_c (map reverse_hunk (hunks p)) ->
+  diff_style (hunks p) -> diff_style (map reverse_hunk (hunks p)) -> Forall half_bound (hunks p) ->
+  Forall wf_hunk_c rj.
+Proof. exact Proofs_RejectWf.rejected_wf_context. Qed.
+Print Assumptions rejected_wf_context.
+
+(* (2') since the repair: the strongest versions.  Unified form: nothing is asked of the ranges. *)
+Theorem apply_patch_unified_reject_always_reparses : forall o f p r strip,
+  define_macro o = [] -> apply_patch o f p = Ok r -> r_failed r <> 0%nat ->
+  should_write_as_unified o (r_patch r) = true ->
+  hdr_ok (old_path (r_patch r)) (old_time (r_patch r)) -> hdr_ok (new_path (r_patch r)) (new_time (r_patch r)) ->
+  Forall wf_hunk (hunks p) ->
+  exists rj p', rejected_by o f p r rj /\ length rj = r_failed r /\ Forall wf_hunk rj /\
+                parse_patch (r_rej r) FUnknown strip = Ok p' /\ read_back r strip FUnified rj p'.
+Proof. exact Proofs_RejectWf.apply_patch_unified_reject_always_reparses. Qed.
+Print Assumptions apply_patch_unified_reject_always_reparses.
+
+Theorem rejected_always_wf : forall o f p r rj,
+  rejected_by o f p r rj -> Forall wf_hunk (hunks p) -> Forall wf_hunk rj /\ Forall wf_hunk (hunks (r_patch r)).
+Proof. exact Proofs_RejectWf.rejected_always_wf. Qed.
+Print Assumptions rejected_always_wf.
+
+(* context form: only the upper room *)
+Theorem apply_patch_context_reject_always_reparses : forall o f p r strip,
+  define_macro o = [] -> apply_patch o f p = Ok r -> r_failed r <> 0%nat ->
+  should_write_as_unified o (r_patch r) = false ->
+  hdr_ok (old_path (r_patch r)) (old_time (r_patch r)) -> hdr_ok (new_path (r_patch r)) (new_time (r_patch r)) ->
+  Forall wf_hunk_c (hunks p) -> Forall wf_hunk_c (map reverse_hunk (hunks p)) ->
+  room_above 0 (hunks p) -> room_above 0 (map reverse_hunk (hunks p)) ->
+  exists rj p', rejected_by o f p r rj /\ length rj = r_failed r /\ Forall wf_hunk_c rj /\
+                parse_patch (r_rej r) FUnknown strip = Ok p' /\ read_back r strip FContext (map norm_hunk rj) p'.
+Proof. exact Proofs_RejectWf.apply_patch_context_reject_always_reparses. Qed.
+Print Assumptions apply_patch_context_reject_always_reparses.
+
+Theorem apply_patch_context_reject_reparses_ordered : forall o f p r strip,
+  define_macro o = [] -> apply_patch o f p = Ok r -> r_failed r <> 0%nat ->
+  should_write_as_unified o (r_patch r) = false ->
+  hdr_ok (old_path (r_patch r)) (old_time (r_patch r)) -> hdr_ok (new_path (r_patch r)) (new_time (r_patch r)) ->
+  Forall wf_hunk_c (hunks p) -> Forall wf_hunk_c (map reverse_hunk (hunks p)) ->
+  increasing_disjoint (hunks p) -> increasing_disjoint (map reverse_hunk (hunks p)) -> Forall half_bound (hunks p) ->
+  exists rj p', rejected_by o f p r rj /\ length rj = r_failed r /\ Forall wf_hunk_c rj /\
+                parse_patch (r_rej r) FUnknown strip = Ok p' /\ read_back r strip FContext (map norm_hunk rj) p'.
+Proof. exact Proofs_RejectWf.apply_patch_context_reject_reparses_ordered. Qed.
+Print Assumptions apply_patch_context_reject_reparses_ordered.
+
+Theorem apply_patch_reject_always_reparses : forall o f p r strip,
+  define_macro o = [] -> apply_patch o f p = Ok r -> r_failed r <> 0%nat ->
+  hdr_ok (old_path (r_patch r)) (old_time (r_patch r)) -> hdr_ok (new_path (r_patch r)) (new_time (r_patch r)) ->
+  Forall wf_hunk_two (hunks p) ->
+  (should_write_as_unified o (r_patch r) = false -> room_above 0 (hunks p) /\ room_above 0 (map reverse_hunk (hunks p))) ->
+  exists rj p', rejected_by o f p r rj /\ length rj = r_failed r /\
+                parse_patch (r_rej r) FUnknown strip = Ok p' /\
+                if should_write_as_unified o (r_patch r) then read_back r strip FUnified rj p'
+                else read_back r strip FContext (map norm_hunk rj) p'.
+Proof. exact Proofs_RejectWf.apply_patch_reject_always_reparses. Qed.
+Print Assumptions apply_patch_reject_always_reparses.
+
+(* inside the rooms the rejected hunks are the hunks moved by exactly the net growth of the hunks applied before them *)
+Theorem rejected_exact : forall o f p r rj,
+  rejected_by o f p r rj -> Forall counts_nonneg (hunks p) -> rooms (hunks p) -> rooms (map reverse_hunk (hunks p)) ->
+  let p1 := if reverse_patch_opt o then reverse_patch p else p in
+  exists q vs, (q = p1 \/ q = reverse_patch p1) /\ length vs = length (hunks q) /\ rj = moved_rejects vs (hunks q) 0.
+Proof. exact Proofs_RejectWf.rejected_exact. Qed.
+Print Assumptions rejected_exact.
+
+(* (2) the room-based statements (kept; as far as reading back goes they follow from the versions above; with rejected_exact
+   they say when the starts read back are exactly start + net growth).  The reject file of a run is read back as the
+   rejected hunks; no hypothesis is left on the rejected hunks.
+   General form, in terms of the room, all three kinds of run (normal, skipped, taken as reversed), with or without -R. *)
+Theorem apply_patch_unified_reject_reparses_room : forall o f p r strip,
+  define_macro o = [] -> apply_patch o f p = Ok r -> r_failed r <> 0%nat ->
+  should_write_as_unified o (r_patch r) = true ->
+  hdr_ok (old_path (r_patch r)) (old_time (r_patch r)) -> hdr_ok (new_path (r_patch r)) (new_time (r_patch r)) ->
+  Forall wf_hunk (hunks p) -> room_below 0 (hunks p) -> room_below 0 (map reverse_hunk (hunks p)) ->
+  exists rj p', rejected_by o f p r rj /\ length rj = r_failed r /\ Forall wf_hunk rj /\
+                parse_patch (r_rej r) FUnknown strip = Ok p' /\ read_back r strip FUnified rj p'.
+Proof. exact Proofs_RejectWf.apply_patch_unified_reject_reparses_room. Qed.
+Print Assumptions apply_patch_unified_reject_reparses_room.
+
+Theorem apply_patch_context_reject_reparses_room : forall o f p r strip,
+  define_macro o = [] -> apply_patch o f p = Ok r -> r_failed r <> 0%nat ->
+  should_write_as_unified o (r_patch r) = false ->
+  hdr_ok (old_path (r_patch r)) (old_time (r_patch r)) -> hdr_ok (new_path (r_patch r)) (new_time (r_patch r)) ->
+  Forall wf_hunk_c (hunks p) -> Forall wf_hunk_c (map reverse_hunk (hunks p)) ->
+  rooms (hunks p) -> rooms (map reverse_hunk (hunks p)) ->
+  exists rj p', rejected_by o f p r rj /\ length rj = r_failed r /\ Forall wf_hunk_c rj /\
+                parse_patch (r_rej r) FUnknown strip = Ok p' /\ read_back r strip FContext (map norm_hunk rj) p'.
+Proof. exact Proofs_RejectWf.apply_patch_context_reject_reparses_room. Qed.
+Print Assumptions apply_patch_context_reject_reparses_room.
+
+(* a diff-style patch, unified form *)
+Theorem apply_patch_unified_reject_reparses_diff_input : forall o f p r strip,
+  define_macro o = [] -> apply_patch o f p = Ok r -> r_failed r <> 0%nat ->
+  should_write_as_unified o (r_patch r) = true ->
+  hdr_ok (old_path (r_patch r)) (old_time (r_patch r)) -> hdr_ok (new_path (r_patch r)) (new_time (r_patch r)) ->
+  Forall wf_hunk (hunks p) -> diff_style (hunks p) -> diff_style (map reverse_hunk (hunks p)) ->
+  exists rj p', rejected_by o f p r rj /\ length rj = r_failed r /\ Forall wf_hunk rj /\
+                parse_patch (r_rej r) FUnknown strip = Ok p' /\ read_back r strip FUnified rj p'.
+Proof. exact Proofs_RejectWf.apply_patch_unified_reject_reparses_diff_input. Qed.
+Print Assumptions apply_patch_unified_reject_reparses_diff_input.
+
+(* what a diff tool writes: positions in order, the first at least 1, new positions = old positions + growth so far, no hunk
+   halves or doubles its range *)
+Theorem genuine_diff_rooms : forall hs,
+  Forall counts_nonneg hs -> genuine_diff hs -> room_below 0 hs /\ room_below 0 (map reverse_hunk hs).
+Proof. exact Proofs_RejectWf.genuine_diff_rooms. Qed.
+Print Assumptions genuine_diff_rooms.
+
+Theorem new_room_of_consistent : forall hs lo g,
+  Forall (fun h => 0 <= rcount (newr h) /\ rcount (oldr h) <= 2 * rcount (newr h)) hs ->
+  touching_ordered hs -> starts_consistent g hs -> head_pos_from_g lo g hs -> new_room lo hs.
+Proof. exact Proofs_RejectWf.new_room_of_consistent. Qed.
+Print Assumptions new_room_of_consistent.
+
+Theorem apply_patch_unified_reject_reparses_genuine_diff : forall o f p r strip,
+  define_macro o = [] -> apply_patch o f p = Ok r -> r_failed r <> 0%nat ->
+  should_write_as_unified o (r_patch r) = true ->
+  hdr_ok (old_path (r_patch r)) (old_time (r_patch r)) -> hdr_ok (new_path (r_patch r)) (new_time (r_patch r)) ->
+  Forall wf_hunk (hunks p) -> genuine_diff (hunks p) ->
+  exists rj p', rejected_by o f p r rj /\ length rj = r_failed r /\ Forall wf_hunk rj /\
+                parse_patch (r_rej r) FUnknown strip = Ok p' /\ read_back r strip FUnified rj p'.
+Proof. exact Proofs_RejectWf.apply_patch_unified_reject_reparses_genuine_diff. Qed.
+Print Assumptions apply_patch_unified_reject_reparses_genuine_diff.
+
+(* with -f (the patch is never skipped nor taken as reversed): one direction *)
+Theorem apply_patch_unified_reject_reparses_diff_input_force : forall o f p r strip,
+  define_macro o = [] -> apply_patch o f p = Ok r -> r_failed r <> 0%nat ->
+  should_write_as_unified o (r_patch r) = true ->
+  hdr_ok (old_path (r_patch r)) (old_time (r_patch r)) -> hdr_ok (new_path (r_patch r)) (new_time (r_patch r)) ->
+  force o = true ->
+  (let p1 := if reverse_patch_opt o then reverse_patch p else p in Forall wf_hunk (hunks p1) /\ diff_style (hunks p1)) ->
+  exists rj p', rejected_by o f p r rj /\ length rj = r_failed r /\ Forall wf_hunk rj /\
+                parse_patch (r_rej r) FUnknown strip = Ok p' /\ read_back r strip FUnified rj p'.
+Proof. exact Proofs_RejectWf.apply_patch_unified_reject_reparses_diff_input_force. Qed.
+Print Assumptions apply_patch_unified_reject_reparses_diff_input_force.
+
+(* a diff-style patch, context form *)
+Theorem apply_patch_context_reject_reparses_diff_input : forall o f p r strip,
+  define_macro o = [] -> apply_patch o f p = Ok r -> r_failed r <> 0%nat ->
+  should_write_as_unified o (r_patch r) = false ->
+  hdr_ok (old_path (r_patch r)) (old_time (r_patch r)) -> hdr_ok (new_path (r_patch r)) (new_time (r_patch r)) ->
+  Forall wf_hunk_c (hunks p) -> Forall wf_hunk_c (map reverse_hunk (hunks p)) ->
+  diff_style (hunks p) -> diff_style (map reverse_hunk (hunks p)) -> Forall half_bound (hunks p) ->
+  exists rj p', rejected_by o f p r rj /\ length rj = r_failed r /\ Forall wf_hunk_c rj /\
+                parse_patch (r_rej r) FUnknown strip = Ok p' /\ read_back r strip FContext (map norm_hunk rj) p'.
+Proof. exact Proofs_RejectWf.apply_patch_context_reject_reparses_diff_input. Qed.
+Print Assumptions apply_patch_context_reject_reparses_diff_input.
+
+Theorem apply_patch_context_reject_reparses_diff_input_force : forall o f p r strip,
+  define_macro o = [] -> apply_patch o f p = Ok r -> r_failed r <> 0%nat ->
+  should_write_as_unified o (r_patch r) = false ->
+  hdr_ok (old_path (r_patch r)) (old_time (r_patch r)) -> hdr_ok (new_path (r_patch r)) (new_time (r_patch r)) ->
+  force o = true ->
+  (let p1 := if reverse_patch_opt o then reverse_patch p else p in Forall wf_hunk_c (hunks p1) /\ diff_style_c (hunks p1)) ->
+  exists rj p', rejected_by o f p r rj /\ length rj = r_failed r /\ Forall wf_hunk_c rj /\
+                parse_patch (r_rej r) FUnknown strip = Ok p' /\ read_back r strip FContext (map norm_hunk rj) p'.
+Proof. exact Proofs_RejectWf.apply_patch_context_reject_reparses_diff_input_force. Qed.
+Print Assumptions apply_patch_context_reject_reparses_diff_input_force.
+
+(* one statement for both forms *)
+Theorem apply_patch_reject_reparses_diff_input : forall o f p r strip,
+  define_macro o = [] -> apply_patch o f p = Ok r -> r_failed r <> 0%nat ->
+  hdr_ok (old_path (r_patch r)) (old_time (r_patch r)) -> hdr_ok (new_path (r_patch r)) (new_time (r_patch r)) ->
+  Forall wf_hunk_two (hunks p) -> diff_style (hunks p) -> diff_style (map reverse_hunk (hunks p)) ->
+  Forall half_bound (hunks p) ->
+  exists rj p', rejected_by o f p r rj /\ length rj = r_failed r /\
+                parse_patch (r_rej r) FUnknown strip = Ok p' /\
+                if should_write_as_unified o (r_patch r) then read_back r strip FUnified rj p'
+                else read_back r strip FContext (map norm_hunk rj) p'.
+Proof. exact Proofs_RejectWf.apply_patch_reject_reparses_diff_input. Qed.
+Print Assumptions apply_patch_reject_reparses_diff_input.
+
+(* (3) the examples: three hunks of a diff, the middle one applies and adds two lines, the first and the last are
+   rejected; both forms, -R; the genuine diff whose rejected hunk has its new start stopped at 0 (before the repair
+   e07e11a its reject file was not a valid patch); the upper room is needed for the context form *)
+Import RejectFileExamples RejectWfExamples.
+
+Example d_unified_reject : forall r,
+  apply_patch default_options d_lines d_p = Ok r ->
+  exists rj p', rejected_by default_options d_lines d_p r rj /\
+                parse_patch (r_rej r) FUnknown (-1) = Ok p' /\ read_back r (-1) FUnified rj p' /\
+                rj = [shift_hunk d_h1 0; shift_hunk d_h3 2] /\ hunks p' = [d_h1; d_h3'] /\
+                old_path p' = bs "f.txt" /\ new_path p' = bs "f.txt".
+Proof. exact RejectWfExamples.d_unified_reject. Qed.
+Print Assumptions d_unified_reject.
+
+Example d_context_reject : forall r,
+  apply_patch ex_oc d_lines d_p = Ok r ->
+  exists rj p', rejected_by ex_oc d_lines d_p r rj /\ length rj = 2%nat /\
+                parse_patch (r_rej r) FUnknown (-1) = Ok p' /\ read_back r (-1) FContext (map norm_hunk rj) p' /\
+                hunks p' = [d_h1; d_h3'] /\ old_path p' = bs "f.txt" /\ new_path p' = bs "f.txt".
+Proof. exact RejectWfExamples.d_context_reject. Qed.
+Print Assumptions d_context_reject.
+
+Example n_is_a_diff :
+  Forall wf_hunk (hunks n_p) /\ increasing_disjoint (hunks n_p) /\ increasing_disjoint (map reverse_hunk (hunks n_p)) /\
+  starts_consistent 0 (hunks n_p) /\ ~ new_room 0 (hunks n_p).
+Proof. exact RejectWfExamples.n_is_a_diff. Qed.
+Print Assumptions n_is_a_diff.
+
+Example removed_top_new_start_stops_at_zero :
+  (exists r, apply_patch default_options ex_lines n_p = Ok r /\ r_failed r = 1%nat /\
+             r_rej r = bs "--- f.txt" ++ [10%N] ++ bs "+++ f.txt" ++ [10%N] ++ bs "@@ -2 +0 @@" ++ [10%N] ++
+                       bs "-X" ++ [10%N] ++ bs "+Y" ++ [10%N] /\
+             exists p', parse_patch (r_rej r) FUnknown (-1) = Ok p' /\ hunks p' = [n_g2'] /\ shift_hunk n_g2 (-5) = n_g2') /\
+  (exists r, apply_patch ex_oc ex_lines n_p = Ok r /\ r_failed r = 1%nat /\
+             r_rej r = bs "*** f.txt" ++ [10%N] ++ bs "--- f.txt" ++ [10%N] ++ bs "***************" ++ [10%N] ++
+                       bs "*** 2 ****" ++ [10%N] ++ bs "! X" ++ [10%N] ++ bs "--- 0 ----" ++ [10%N] ++ bs "! Y" ++ [10%N] /\
+             exists p', parse_patch (r_rej r) FUnknown (-1) = Ok p' /\ hunks p' = [n_g2']).
+Proof. exact RejectWfExamples.removed_top_new_start_stops_at_zero. Qed.
+Print Assumptions removed_top_new_start_stops_at_zero.
+
+Example n_unified_reject : forall r,
+  apply_patch default_options ex_lines n_p = Ok r ->
+  exists rj p', rejected_by default_options ex_lines n_p r rj /\ length rj = 1%nat /\
+                parse_patch (r_rej r) FUnknown (-1) = Ok p' /\ read_back r (-1) FUnified rj p' /\ hunks p' = [n_g2'].
+Proof. exact RejectWfExamples.n_unified_reject. Qed.
+Print Assumptions n_unified_reject.
+
+Example n_context_reject : forall r,
+  apply_patch ex_oc ex_lines n_p = Ok r ->
+  exists rj p', rejected_by ex_oc ex_lines n_p r rj /\ length rj = 1%nat /\
+                parse_patch (r_rej r) FUnknown (-1) = Ok p' /\ read_back r (-1) FContext (map norm_hunk rj) p' /\
+                hunks p' = [n_g2'].
+Proof. exact RejectWfExamples.n_context_reject. Qed.
+Print Assumptions n_context_reject.
+
+Example upper_room_needed :
+  Forall wf_hunk_c (hunks u_p) /\ Forall wf_hunk_c (map reverse_hunk (hunks u_p)) /\
+  increasing_disjoint (hunks u_p) /\ increasing_disjoint (map reverse_hunk (hunks u_p)) /\ ~ room_above 0 (hunks u_p) /\
+  (exists r, apply_patch ex_oc ex_lines u_p = Ok r /\ r_failed r = 1%nat /\
+             parse_patch (r_rej r) FUnknown (-1) = Throw ERuntime) /\
+  (exists r p', apply_patch default_options ex_lines u_p = Ok r /\ r_failed r = 1%nat /\
+                parse_patch (r_rej r) FUnknown (-1) = Ok p' /\ hunks p' = [shift_hunk u_h2 1]).
+Proof. exact RejectWfExamples.upper_room_needed. Qed.
+Print Assumptions upper_room_needed.
